@@ -46,6 +46,8 @@ type QueueScenario struct {
 	// ListenerLag: the store's informer listener runs as its own transition (later than the cache
 	// update and the queue controller's listener); one resync round happens before quiescence.
 	ListenerLag bool `json:"listenerLag,omitempty"`
+	// Tombstones: deletions are only noticed by a relist (handlers get DeletedFinalStateUnknown).
+	Tombstones bool `json:"tombstones,omitempty"`
 	// ColdStart: after a restart the Job and JobConfig informers list in either order, handlers
 	// run against whatever the other cache holds by then; the store recovers once both have listed.
 	ColdStart bool `json:"coldStart,omitempty"`
@@ -128,6 +130,7 @@ func newQueueWorld(scn QueueScenario) *queueWorld {
 	b := mc.NewBase(cfgs, true)
 	w.Base = b
 	b.Budget = scn.Budget
+	b.Tombstones = scn.Tombstones
 	if scn.ColdStart {
 		b.ColdStart = true
 		b.ColdResources = []string{sim.JobConfigs, sim.Jobs}
@@ -502,6 +505,11 @@ func (w *queueWorld) onWrite(wr sim.Write) {
 		if _, has := jobutil.GetAdmissionErrorMessage(new); has && wr.Actor == "ctrl" {
 			w.Count("C06.reject")
 			w.mem.Rejected[new.Name] = true
+			if sp := new.Spec.StartPolicy; sp != nil && sp.StartAfter != nil && now.Before(sp.StartAfter.Time) {
+				// A Job that is not due yet waits; whether it may run is decided when its time has come.
+				w.Violate("C07", "refused-before-start-after", fmt.Sprintf("job %s refused at +%.0fs although its startAfter (+%.0fs) has not come yet: nothing can start it any more", new.Name, w.Offset(), sp.StartAfter.Sub(sim.Epoch).Seconds()), w.features()...)
+				w.Violate("C06", "refused-before-start-after", fmt.Sprintf("Forbid job %s refused before its startAfter: the limit has to be judged when the Job is due", new.Name), w.features()...)
+			}
 			if p := policyOf(new); p != execution.ConcurrencyPolicyForbid {
 				w.Violate("C06", "non-forbid-rejected", fmt.Sprintf("job %s with policy %q was refused", new.Name, p), w.features()...)
 			}
